@@ -23,6 +23,8 @@ CONSTANTS Procs,      \* client processes (goroutines calling the facade)
           HasBack,    \* TRUE: two-tier category (persistent / sharedPersistent)
           Mode,       \* "kv" : Get/Set/Delete     "list" : Append/Remove/GetList
           SyncFill,   \* TRUE: model of the repaired code (per-key lock, synchronous fill)
+          FaultProc,  \* a process whose FIRST call may see its front-tier Set fail once ("none": no tier failure)
+          Invalidate, \* TRUE: repaired code - a failed cache write of a persisted Set drops the cache entry
           Emit
 
 VARIABLES front, back,   \* tier contents: [p |-> present, id |-> ghost write id, v |-> value]
@@ -165,6 +167,22 @@ S2(p) == /\ pc[p] = "S2" /\ Locked(p)
          /\ UNCHANGED <<back, cur, tmp, wb, nwb, nid, before, floor>>
          /\ Log(p, "FrontSet")
 
+\* single tier failure: the front (cache) write of a two-tier Set fails. The persistent write has
+\* succeeded, the code only logs the error and acknowledges the call. Unrepaired: the older value
+\* stays in the cache. Repaired (Invalidate): the cache entry is deleted (step S2x).
+S2Fail(p) == /\ pc[p] = "S2" /\ Locked(p) /\ HasBack /\ p = FaultProc /\ done[p] = 0
+             /\ front' = front
+             /\ IF Invalidate THEN pc' = [pc EXCEPT ![p] = "S2x"] /\ UNCHANGED <<done, returned, stale, lock>>
+                ELSE Finish(p, back)
+             /\ UNCHANGED <<back, cur, tmp, wb, nwb, nid, before, floor>>
+             /\ Log(p, "FrontSetFail")
+
+S2x(p) == /\ pc[p] = "S2x" /\ Locked(p)
+          /\ front' = None(cur[p].id)
+          /\ Finish(p, front')
+          /\ UNCHANGED <<back, cur, tmp, wb, nwb, nid, before, floor>>
+          /\ Log(p, "FrontInval")
+
 D1(p) == /\ pc[p] = "D1" /\ Locked(p)
          /\ front' = None(cur[p].id)
          /\ IF HasBack THEN pc' = [pc EXCEPT ![p] = "D2"] /\ UNCHANGED <<done, returned, stale, lock>>
@@ -184,7 +202,7 @@ Visible == IF front.p THEN front.v ELSE IF HasBack /\ back.p THEN back.v ELSE {}
 Ret(kind) == {i \in returned : before[i].op = kind}
 
 Next == \/ \E p \in Procs : \/ \E o \in OpKinds : Call(p, o)
-                            \/ G1(p) \/ G1L(p) \/ G2(p) \/ F(p) \/ S1(p) \/ S2(p) \/ D1(p) \/ D2(p)
+                            \/ G1(p) \/ G1L(p) \/ G2(p) \/ F(p) \/ S1(p) \/ S2(p) \/ S2Fail(p) \/ S2x(p) \/ D1(p) \/ D2(p)
         \/ \E w \in wb : WB(w)
 Spec == Init /\ [][Next]_vars
 
